@@ -6,6 +6,7 @@ valid — but what it emits is a fully resolved, total instruction.
 from ddsim import ops, prng
 
 NAME_POOL = [
+    'mode', 'ids', 'add', 'ver', 'nvars',      # header words of the DDDMP format are ordinary names
     'x', 'y', 'z', 'w', 'a', 'b', 'c', 'd', 'p', 'q', 'r', 's', 't', 'u', 'v',
     "x'", "y'", "z'", "a'", "b'", "p'", "q'", 'x0', 'x1', 'x2', 'x3', 'y0',
     'y1', 'y2', 'a_1', 'a_2', 'b_1', 'b_2', '_x', '_y', '_tmp', 'X', 'Y', 'Z',
@@ -92,7 +93,7 @@ def gen_quant(w, r, cfg):
     else:
         vs = r.randrange(1 << w.nv)
     return dict(op='quant', how=how, a=_ri(r), b=_ri(r), vars=vs,
-                forall=r.randrange(2), cont=r.randrange(7), alias=r.randrange(2),
+                forall=r.randrange(2), cont=r.randrange(8), alias=r.randrange(2),
                 kwarg=r.randrange(2), keep=r.random() < cfg['keep_rate'])
 
 
